@@ -47,6 +47,10 @@ impl ServerStartInstant {
         Self(Instant::now())
     }
     pub fn seconds_elapsed(&self) -> Option<SecondsSinceServerStart> {
+        #[cfg(feature = "verif-hooks")]
+        if let Some(seconds) = verif_hooks::clock() {
+            return Some(SecondsSinceServerStart(seconds));
+        }
         Instant::now().checked_duration_since(self.0).map(|dur| {
             let seconds = dur
                 .as_secs()
@@ -54,6 +58,24 @@ impl ServerStartInstant {
                 .expect("server ran for more seconds than what fits in a u32");
             SecondsSinceServerStart(seconds)
         })
+    }
+}
+
+/// Verification hook: per-thread override of the whole-second server clock.
+#[cfg(feature = "verif-hooks")]
+pub mod verif_hooks {
+    use std::cell::Cell;
+
+    thread_local! {
+        static CLOCK: Cell<Option<u32>> = const { Cell::new(None) };
+    }
+
+    pub fn set_clock(seconds: Option<u32>) {
+        CLOCK.with(|c| c.set(seconds))
+    }
+
+    pub fn clock() -> Option<u32> {
+        CLOCK.with(|c| c.get())
     }
 }
 
